@@ -160,8 +160,11 @@ def _worker_main(check, spec_path):
     finally:
         faulthandler.cancel_dump_traceback_later()
         rec.finish()
-    sys.stdout.flush()
-    sys.stderr.flush()
+    for stream in (sys.stdout, sys.stderr):
+        try:
+            stream.flush()
+        except Exception:  # the system under test may have closed the worker's std streams (a C09 finding, reported there)
+            pass
     os._exit(0)
 
 
